@@ -40,6 +40,7 @@ BITS = {
     'bits_state_one': 'StateOneTransNext / StateOneTrans::{new, set_common_input, common_input, input_len} against the state-byte layout',
     'bits_state_new': 'State::new: class = top two bits, address 0 = empty final',
     'bits_pack_size': 'bytes::pack_size == least byte width; pack_delta_size == width of the delta',
+    'bits_output': 'Output::{new, zero, value, is_zero, prefix, cat, sub}: min, +, - on the wrapped u64',
 }
 for _h, _d in BITS.items():
     H[_h] = ('k_bits.rs', 'crate', ('thorough', 'fallback'), _d, 'complete (loop-free, full input domain)')
@@ -55,6 +56,8 @@ for _s in ('StateOneTransNext', 'StateOneTrans'):
     for _f in ('new', 'set_common_input', 'common_input', 'input_len'):
         FALLBACK[_s + '::' + _f] = 'bits_state_one'
 FALLBACK['State::new'] = 'bits_state_new'
+for _f in ('new', 'zero', 'value', 'is_zero', 'prefix', 'cat', 'sub'):
+    FALLBACK['Output::' + _f] = 'bits_output'
 FALLBACK['CheckSummer::masked'] = 'masked_spec'
 FALLBACK['pack_size'] = 'bits_pack_size'
 FALLBACK['pack_delta_size'] = 'bits_pack_size'
